@@ -5,4 +5,4 @@ From Coq Require Extraction ExtrOcamlBasic.
 From V Require Import Base.Prelude Base.Val Hub.Codec Hub.Monitor.
 
 Extraction Language OCaml.
-Extraction "model.ml" hub_run mon_C04 mon_C10 mon_C12 mon_C13 mon_C11.
+Extraction "model.ml" hub_run mon_C04 mon_C10 mon_C12 mon_C13 mon_C11 mon_C19.
